@@ -14,6 +14,8 @@ fn main() {
         "C35" => e2_c35::c35(&args),
         "C18" => e2_incr::c18(&args),
         "C19" => e2_incr::c19(&args),
+        "C17" => e2_kg::c17(&args),
+        "C16" => e2_kg::c16(&args),
         "C31" => e5::c31(&args),
         "C28" => e5::c28(&args),
         "C11" => e2_store::c11(&args),
